@@ -881,7 +881,7 @@ Proof. vm_compute. split; reflexivity. Qed.
 (* ====================================================================================== *)
 (* The parser turns "a.b.x = v" into  a { b { x = v } }  where every object below the first carries
    merge_names, and the printer prints a scope whose first child carries merge_names without braces,
-   prefixing its name to the children's names.  The domain [dtree_ok] admits exactly that shape:
+   prefixing its name to the children's names.  The domain [dtree_ok] allows exactly that shape:
    a dotted-prefix scope has exactly one child (carrying merge_names) and is not disabled. *)
 
 Definition is_nil {A} (l:list A) : bool := match l with [] => true | _ => false end.
